@@ -353,6 +353,8 @@ def _wrap_task_dict(d, t, n, rec):
                                   title_with_actions / a function returning a number)
       lazy_bad: 'int' | 'tuple4'  `actions` holds an element doit rejects only when the action objects are created, i.e.
                                   inside the runner at execution time (InvalidTask -> runtime_error, run aborted, exit 2)
+      unpicklable: 'lock' | 'gen' (tasks whose outcome is 'failed' / 'error') an extra FIRST action returns a dict holding a
+                                  threading.Lock / a generator; the task's own action then fails (r6)
       bad_values: 'set' | 'bytes' (tasks whose outcome is 'saveerr') the actions succeed and return a dict with a value the DB
                                   codec cannot encode: save_success fails, the task is a DependencyError failure (model: saveErr)"""
     x = _extras(t)
@@ -405,6 +407,18 @@ def _wrap_task_dict(d, t, n, rec):
             return r
         act_badvals.__name__ = 'act_badvals_%d' % n
         d['actions'] = list(d['actions'][:-1]) + [act_badvals]
+    if x.get('unpicklable') and t['outcome'] in ('failed', 'error') and not x.get('base_exc') and not x.get('lazy_bad') \
+            and not t.get('calc_first') and not t.get('calc_res'):
+        # r6: a task of >= 2 actions; an EARLIER action returns values that cannot be pickled (a lock / a generator), a LATER
+        # one fails.  What happened is the failure of that action (TaskFailed / TaskError) whatever the runner: the process
+        # runner's "result not picklable" branch must keep it (`result.setdefault('failure', ...)`)
+        what = x['unpicklable']
+
+        def act_unpicklable():
+            import threading
+            return {'held': threading.Lock() if what == 'lock' else (i for i in ())}
+        act_unpicklable.__name__ = 'act_unpicklable_%d' % n
+        d['actions'] = [act_unpicklable] + list(d['actions'])
     if x.get('lazy_bad'):
         d['actions'] = [3] if x['lazy_bad'] == 'int' else [(orig, [], {}, 1)]
     if x.get('verbosity') is not None:
@@ -952,6 +966,10 @@ def count19(st, case, obs):
     for t in case['tasks']:
         for k, v in _extras(t).items():
             st.count('extra:%s=%s' % (k, v))
+    if any(_extras(t).get('unpicklable') for t in case['tasks']):
+        started = {e[1] for e in obs['full'] if e[0] == 'start'}
+        hit = any(_extras(t).get('unpicklable') and n in started for n, t in enumerate(case['tasks']))
+        st.count('r6:unpicklable_values_then_failing_action:%s:%s' % (case['runner'], 'executed' if hit else 'not-reached'))
     if case.get('verbosity') is not None:
         st.count('extra:global_verbosity=%s' % case['verbosity'])
     if case.get('out_encoding'):
@@ -1040,6 +1058,14 @@ def decorate(c, rng):
                 t.setdefault('c19', {}).setdefault('prints', True)
                 if c.get('verbosity') is None or rng.random() < 0.3:
                     t['c19']['verbosity'] = rng.choice([2, 2, 1])
+    # r6 (drawn last: the stream of the earlier decorations is unchanged): unpicklable values, then a failing action
+    cand = [t for t in real if t['outcome'] in ('failed', 'error') and not _extras(t).get('base_exc')
+            and not _extras(t).get('lazy_bad') and not _extras(t).get('sigkill')
+            and not t.get('calc_first') and not t.get('calc_res')]
+    if cand and rng.random() < (0.6 if c['runner'] == 'process' else 0.08):
+        for t in cand:
+            if rng.random() < 0.7:
+                t.setdefault('c19', {})['unpicklable'] = rng.choice(['lock', 'gen'])
     if 'model' in c:
         c['model'] = runlib.expand(c)      # outcomes / calc_first may have changed
     return c
